@@ -55,7 +55,7 @@ PROPS = {
     "C11": {"level": "exploration", "arms": [A("fringe-history", 60000, 3000000), A("seq-depthfree-nodup", 20000, 800000), A("par-free", 10000, 400000), A("seq-sweep-nodup", 2000, 150000)],
             "probes": ["probe:coalesced", "probe:coalesced_with_different_ub", "fringe_clears", "fringe_pops"],
             "rule": "generated push/pop/clear histories (length 4..43, <= 4 states x <= 3 depths x values 0..4 x ubs 0..5) on SimpleFringe and NoDupFringe with MaxUB against a reference multiset keyed by (state, depth), every operation compared, final drain; distinct = distinct (fringe kind, history); plus in-situ reference multiset inside solver runs with depth-free states"},
-    "C12": {"level": "exploration", "arms": [A("dd-history", 20000, 800000), A("dd-history-narrow", 20000, 800000), A("dd-history-longarc", 6000, 200000), A("seq-free", 20000, 800000), A("par-free", 15000, 600000), A("par-cutoff", 10000, 400000)],
+    "C12": {"level": "exploration", "arms": [A("dd-history", 20000, 800000), A("dd-history-narrow", 20000, 800000), A("dd-history-longarc", 6000, 200000), A("seq-free", 20000, 800000), A("par-free", 15000, 600000), A("par-cutoff", 10000, 400000), A("seq-longarc", 3000, 150000)],
             "probes": ["mon_relax_calls", "mon_merge_calls", "mon_tc_calls", "mon_domain_calls", "mon_nextvar_calls", "fault:reuse_after_abort", "fault:cutoff_fired"],
             "rule": "every call of transition_cost / relax / merge / for_each_in_domain / next_variable made by the library during the runs is checked online by recording wrappers, per worker; cases = runs; non-trivial = at least one merge happened / the search branched"},
     "C13": {"level": "exploration", "arms": [A("dd-history", 20000, 800000), A("dd-history-narrow", 20000, 800000), A("seq-free", 20000, 800000), A("par-free", 15000, 600000), A("width-grid", 3000, 30000)],
@@ -64,10 +64,10 @@ PROPS = {
     "C14": {"level": "exploration", "arms": [A("seq-primal", 40000, 1500000), A("par-primal", 40000, 1500000)],
             "probes": ["fault:primal_seed", "primal_equals_optimum", "probe:>=2_workers_compiling_at_once"],
             "rule": RULE_SOLVER + "; before maximize() one or two set_primal calls with witnesses of the reference model (optimum, optimum - 1, optimum - d, random feasible)"},
-    "C15": {"level": "exploration", "arms": [A("seq-longarc", 8000, 400000), A("par-longarc", 4000, 200000), A("seq-longarc-plain", 4000, 200000)],
+    "C15": {"level": "exploration", "arms": [A("seq-longarc", 8000, 120000), A("par-longarc", 4000, 40000), A("seq-longarc-plain", 4000, 60000)],
             "probes": ["branched(explored>=2)", "probe:>=2_workers_compiling_at_once"],
             "rule": RULE_SOLVER + "; depth-free table models with random irrelevance patterns (an irrelevant (layer, state) has the single neutral decision: stay, cost 0); pooled solvers vs plain-diagram solvers vs reference"},
-    "C16": {"level": "exploration", "arms": [A("ex-" + n, 500, 20000, samples=1) for n in EXAMPLES_READY],
+    "C16": {"level": "exploration", "arms": [A("ex-" + n, 2500, 40000, samples=1) for n in EXAMPLES_READY],
             "probes": ["example_runs:" + n for n in EXAMPLES_READY] + ["probe:>=2_workers_compiling_at_once", "width:default", "threads:4"],
             "rule": "one case = (random small instance written in the example's own file format, width in {1,2,3,default}, threads in {1,2,4}, scheduler seed); the REAL example program (its main(), CLI parsing, reader, model, solver wiring, printing; built from /repo/ddo/examples/<name>/ by harness/exrun/build.rs) runs as a child process under the deterministic scheduler and the number on its `Objective:` line is compared with an independent brute-force enumeration; non-trivial: every case counts; distinct = distinct (instance file, width, threads, schedule trace)",
             "real": ["the example programs themselves: main(), clap CLI, instance readers, DP models, relaxations, rankings, dominance rules, width heuristics (harness/exrun builds them from /repo's working tree)", "ddo solvers, diagrams, fringes, cache, dominance stores; real OS threads under engine S (lock/condvar/thread hooks)"],
